@@ -30,6 +30,9 @@ theorem fmap_eq_ok {ε α β : Type} {x : Except ε α} {f : α → β} {b : β}
 @[simp] theorem ok_bind {ε α β : Type} (a : α) (f : α → Except ε β) :
     ((Except.ok a : Except ε α) >>= f) = f a := rfl
 
+@[simp] theorem error_bind {ε α β : Type} (e : ε) (f : α → Except ε β) :
+    ((Except.error e : Except ε α) >>= f) = .error e := rfl
+
 @[simp] theorem pure_eq_ok {ε α : Type} (a : α) : (pure a : Except ε α) = .ok a := rfl
 
 theorem mapM_cons_ok {α β : Type} (f : α → Except Err β) (x : α) (xs : List α) (ys : List β) :
